@@ -311,6 +311,7 @@ def run(res):
         writers = {}
         nextF = wl.F_of(cfg, base) + cfg.fc
         adjacent = rng.random() < 0.6
+        periods = []
         for per, k in enumerate(owner):
             if adjacent:
                 # the periods follow each other without a hole: a period ends on the last sample of a file and
@@ -327,6 +328,7 @@ def run(res):
                 ops = [("w", 0, pf + 1, tag), ("w", pf + 3, 2, tag + pf + 1), ("c",)]
                 tag += pf + 3
             c2 = wl.Cfg(cfg.n, cfg.d, cfg.sc, cfg.fc, st, cfg.cont, cfg.comp, cfg.cksum, cfg.kind, cfg.size, cfg.order, cfg.is_complex, cfg.nsub)
+            periods.append([k, st, [list(o) for o in ops]])
             reports, w = wl.run_impl(c2, ops, os.path.join(tops[k], "ch"))
             m = wl.abs_of_history(c2, ops, reports)
             exp.update(wl.expected_with_fill(c2, m))
@@ -344,7 +346,8 @@ def run(res):
             empty_at = rng.randrange(0, len(order) + 1)
             order.insert(empty_at, et)
             res.count("multidir-with-empty-channel-directory")
-        hist = {"cfg": cfg.as_dict(), "period_owner": owner, "dir_order": [os.path.basename(t) for t in order]}
+        hist = {"cfg": cfg.as_dict(), "period_owner": owner, "dir_order": [os.path.basename(t) for t in order],
+                "multidir_periods": periods, "empty_at": empty_at}
         res.case(("multidir", cfg.key(), tuple(owner), tuple(order)))
         res.count("multidir")
         try:
@@ -404,4 +407,49 @@ T3_TRUST = ("translate/attrs2gallina.py (T3): symbolic reading of the straight-l
 
 
 def replay(res, rp):
-    return wl.replay(res, rp)
+    inp = rp.get("input") or {}
+    if "multidir_periods" not in inp:
+        return wl.replay(res, rp)
+    # ---- a same-named channel under several top-level directories: rebuild, read, compare with the union
+    common.use_impl()
+    import digital_rf
+    cfg = wl.cfg_from_dict(inp["cfg"])
+    work = common.scratch_dir()
+    exp = {}
+    names = {}
+    for k, st, ops in inp["multidir_periods"]:
+        c2 = wl.Cfg(cfg.n, cfg.d, cfg.sc, cfg.fc, st, cfg.cont, cfg.comp, cfg.cksum, cfg.kind, cfg.size, cfg.order, cfg.is_complex, cfg.nsub)
+        ops = [tuple(o) for o in ops]
+        top = names.setdefault(k, os.path.join(work, "top%d" % k))
+        reports, w = wl.run_impl(c2, ops, os.path.join(top, "ch"))
+        exp.update(wl.expected_with_fill(c2, wl.abs_of_history(c2, ops, reports)))
+    # the order of the directories as the reader got them (names t<i>_<k>; t<i>_empty = channel without data)
+    order = []
+    for nm in inp["dir_order"]:
+        if nm.endswith("_empty"):
+            et = os.path.join(work, "empty")
+            os.makedirs(os.path.join(et, "ch"))
+            wl.make_writer(c2, os.path.join(et, "ch")).close()
+            order.append(et)
+        else:
+            order.append(names[int(nm.rsplit("_", 1)[1])])
+    rd = digital_rf.DigitalRFReader(order)
+    a, b = inp.get("window") or [min(exp), max(exp)]
+    want = [(x, len(t)) for x, t in wl.runs_of(exp, a, b)]
+    print("directories (reader order):", inp["dir_order"], " window:", [a, b])
+    bad = 0
+    try:
+        got = [(int(k), len(v)) for k, v in sorted(rd.read(a, b, "ch").items())]
+        blocks = [(int(k), int(v)) for k, v in sorted(rd.get_continuous_blocks(a, b, "ch").items())]
+        bnds = rd.get_bounds("ch")
+    except Exception as e:  # noqa
+        print("reader raised:", repr(e))
+        return 1
+    print("union of the sessions, runs (start, length):", want)
+    print("read()                                    :", got, "" if got == want else "  <-- DIFFER")
+    print("get_continuous_blocks()                   :", blocks, "" if blocks == want else "  <-- DIFFER")
+    print("get_bounds()                              :", list(bnds), " union:", [min(exp), max(exp)],
+          "" if (bnds[0], bnds[1]) == (min(exp), max(exp)) else "  <-- DIFFER")
+    bad = int(got != want) + int(blocks != want) + int((bnds[0], bnds[1]) != (min(exp), max(exp)))
+    print("replay verdict:", "STILL VIOLATING" if bad else "no longer violating")
+    return 1 if bad else 0
